@@ -26,6 +26,7 @@ int main(void) {
   ZV("CONT_sizeof_IWRB", sizeof(IWRB));
   ZV("CONT_sizeof_IWLISTITEM", sizeof(IWLISTITEM));
   ZV("CONT_sizeof_charptr", sizeof(char*));
+  ZV("CONT_sizeof_size_t", sizeof(size_t));
   {
     // iwchars_is_space on every byte value (the trimming of iwpool_split_string; bytes >= 0x80 are negative chars)
     printf("Definition CONT_is_space_table : list Z := [");
